@@ -582,7 +582,7 @@ impl<'a> ParserState<'a> {
             let mut text = self.get_token_text(token);
 
             // the text of an A2ML block (even a misplaced one) is also a string token, but has no quotes
-            if text.len() >= 2 && text.starts_with('\"') {
+            if text.len() >= 2 && text.starts_with('\"') && text.ends_with('\"') {
                 text = &text[1..text.len() - 1];
             }
 
